@@ -1,6 +1,5 @@
 import McpModel.TypedTool.GoTy
 import McpModel.TypedTool.Registry
-import McpModel.TypedTool.Lemmas
 /-!
 E12 TypedTool (C16) — the TYPED CORE of the driver: the C16 monitor on typed data.
 
